@@ -455,29 +455,86 @@ theorem gen_complete_registry_partial (htab : TableOk reg table) (name : Bytes) 
   | error => exact absurd ht (h2 name ce jd jij hj hij hgl hx t text hlk)
   | unspec => exact Or.inr rfl
 
-/-- … and conversely: on directive-free templates the reference's call renders everything Spec/Eval.renderTmpl renders
-    (`spec_le_ref_block`: the reference's print falls back to Spec/Eval's where the JSON image is silent) -/
-theorem renderTmpl_le (hesc : EscapeHtmlIs F) (hasBundle : Bool) (hplain : ∀ t ∈ reg, plainBlock hasBundle t.body = true) :
+/-- the mirror of `PrintLe`: on the directive lists `ok` accepts, the reference's print renders what Spec/Eval's print
+    (library semantics `dsem`) renders.  `printGe_noDirs`: holds for `noDirs` under `EscapeHtmlIs`; Props/C04h
+    `printGe_dirsIn`: for the directive lists of the generator's table under the equational obligations `DirEq`. -/
+def PrintGe (ok : List Directive → Bool) (dsem : Option Spec.Eval.LibSem) : Prop :=
+  ∀ (ae : Autoescape) (dirs : List Directive) (env : SEnv) (v : Val) (s : Bytes), ok dirs = true →
+    specPrint dsem (ae != .off) env dirs v = .val s → refPrint F ae dirs v = .val s
+
+theorem printGe_noDirs (hesc : EscapeHtmlIs F) (dsem : Option Spec.Eval.LibSem) : PrintGe F noDirs dsem :=
+  fun ae dirs env v s hd h => print_ge_noDirs F ae hesc dsem dirs env v s hd h
+
+/-- … and conversely: the reference's call renders everything Spec/Eval.renderTmpl (library semantics `dsem`) renders,
+    on templates whose prints carry directive lists `ok` accepts (`spec_le_ref_block`: the reference's print falls back
+    to Spec/Eval's where the JSON image is silent) -/
+theorem renderTmpl_le_dirs (hesc : EscapeHtmlIs F) (ok : List Directive → Bool) (dsem : Option Spec.Eval.LibSem)
+    (hge : PrintGe F ok dsem) (hasBundle : Bool) (hplain : ∀ t ∈ reg, dirBlock ok hasBundle t.body = true) :
     ∀ (d : Nat) (name : Bytes) (t : Registry.Tmpl) (ce : Spec.Eval.CallEnv) (out : Bytes), Registry.lookup reg name = some t →
-      Spec.Eval.renderTmpl reg hasBundle none d t ce = .val out → refCall F reg d t ce = .val out
+      Spec.Eval.renderTmpl reg hasBundle dsem d t ce = .val out → refCall F reg d t ce = .val out
   | 0, _, _, _, _, _, h => by simp [Spec.Eval.renderTmpl] at h
   | d + 1, name, t, ce, out, hl, h => by
     rw [Spec.Eval.renderTmpl] at h
     simp only [refCall]
-    have hb := spec_le_ref_block F (tmplAe t) hesc reg hasBundle ce.entry (refCall F reg d) (Spec.Eval.renderTmpl reg hasBundle none d)
-      (fun name t ce out hl h => renderTmpl_le hesc hasBundle hplain d name t ce out hl h) t.body _ out
+    have hb := spec_le_ref_block F (tmplAe t) hesc reg hasBundle ce.entry (refCall F reg d) (Spec.Eval.renderTmpl reg hasBundle dsem d)
+      ok dsem (hge (tmplAe t))
+      (fun name t ce out hl h => renderTmpl_le_dirs hesc ok dsem hge hasBundle hplain d name t ce out hl h) t.body _ out
       (hplain t (mem_of_lookup reg hl)) h
     cases hbody : t.body with
     | mk p cmds => rw [hbody] at hb; simpa [refBlock, blockCmds] using hb
 
-/-- where a generated function throws, Spec/Eval does not render: `CallRelE` against Spec/Eval.renderTmpl itself -/
-theorem calls_table_throw (hesc : EscapeHtmlIs F) (hasBundle : Bool) (hplain : ∀ t ∈ reg, plainBlock hasBundle t.body = true)
+theorem renderTmpl_le (hesc : EscapeHtmlIs F) (hasBundle : Bool) (hplain : ∀ t ∈ reg, plainBlock hasBundle t.body = true) :
+    ∀ (d : Nat) (name : Bytes) (t : Registry.Tmpl) (ce : Spec.Eval.CallEnv) (out : Bytes), Registry.lookup reg name = some t →
+      Spec.Eval.renderTmpl reg hasBundle none d t ce = .val out → refCall F reg d t ce = .val out :=
+  renderTmpl_le_dirs F reg hesc noDirs none (printGe_noDirs F hesc none) hasBundle hplain
+
+/-- where a generated function throws, Spec/Eval (library semantics `dsem`) does not render -/
+theorem calls_table_throw_dirs (hesc : EscapeHtmlIs F) (ok : List Directive → Bool) (dsem : Option Spec.Eval.LibSem)
+    (hge : PrintGe F ok dsem) (hasBundle : Bool) (hplain : ∀ t ∈ reg, dirBlock ok hasBundle t.body = true)
     (htab : TableOk reg table) (d : Nat) (e : Spec.Eval.Binds) :
-    CallRelE (callFn F table fuel d) ⟨reg, e, Spec.Eval.renderTmpl reg hasBundle none d⟩ := by
+    CallRelE (callFn F table fuel d) ⟨reg, e, Spec.Eval.renderTmpl reg hasBundle dsem d⟩ := by
   intro name ce jd jij hj hij hgl hg callee out hlk hc
   have hlk' : Registry.lookup reg name = some callee := hlk
   exact (calls_table_correct F reg table fuel htab d e).2 name ce jd jij hj hij hgl hg callee out hlk
-    (renderTmpl_le F reg hesc hasBundle hplain d name callee ce out hlk' hc)
+    (renderTmpl_le_dirs F reg hesc ok dsem hge hasBundle hplain d name callee ce out hlk' hc)
+
+/-- where a generated function throws, Spec/Eval does not render: `CallRelE` against Spec/Eval.renderTmpl itself -/
+theorem calls_table_throw (hesc : EscapeHtmlIs F) (hasBundle : Bool) (hplain : ∀ t ∈ reg, plainBlock hasBundle t.body = true)
+    (htab : TableOk reg table) (d : Nat) (e : Spec.Eval.Binds) :
+    CallRelE (callFn F table fuel d) ⟨reg, e, Spec.Eval.renderTmpl reg hasBundle none d⟩ :=
+  calls_table_throw_dirs F reg table fuel hesc noDirs none (printGe_noDirs F hesc none) hasBundle hplain htab d e
+
+/-- PARTIAL (C04, a whole registry, the converse against Spec/Eval.render, prints WITH directives).  Relative to
+    `PrintLe` and `PrintGe` (the two prints agree on the directive lists `ok` accepts): where Spec/Eval.render with the
+    library semantics `dsem` renders the template `name` on `data`, the generated function — called on the JSON image of
+    the data, its calls served by the table to the same depth — returns exactly this text or leaves the common subset
+    (`unspec`); it does NOT throw. -/
+theorem gen_complete_registry_spec_dirs_partial (hesc : EscapeHtmlIs F) (ok : List Directive → Bool) (dsem : Option Spec.Eval.LibSem)
+    (hle : PrintLe F ok dsem) (hge : PrintGe F ok dsem) (msgs : Bool)
+    (hplain : ∀ t ∈ reg, dirBlock ok msgs t.body = true)
+    (htab : TableOk reg table) (globals : Spec.Eval.Binds) (ij : Option Spec.Eval.Binds) (name : Bytes)
+    (data : Spec.Eval.Binds) (jd : List (Bytes × JVal)) (hj : C04c.toJsKvs data = some jd)
+    (jij : Option (List (Bytes × JVal))) (hij : IjRel ij jij) (hgl : GlobRel globals) (d : Nat)
+    (text : Bytes) (ht : Spec.Eval.render reg globals ij msgs name data d dsem = .val text) :
+    callFn F table fuel d name (.obj jd) jij = .val (.str text) ∨ callFn F table fuel d name (.obj jd) jij = .unspec := by
+  cases hx : callFn F table fuel d name (.obj jd) jij with
+  | val r =>
+    obtain ⟨text', ht', rfl⟩ :=
+      gen_correct_registry_dirs_partial F reg table fuel hesc ok dsem hle msgs hplain htab globals ij name data jd hj jij hij hgl d r hx
+    rw [ht] at ht'
+    simp only [Out.val.injEq] at ht'
+    subst ht'
+    exact Or.inl rfl
+  | error =>
+    exfalso
+    simp only [Spec.Eval.render] at ht
+    cases hlk : Registry.lookup reg name with
+    | none => simp [hlk] at ht
+    | some t =>
+      simp only [hlk] at ht
+      exact calls_table_throw_dirs F reg table fuel hesc ok dsem hge msgs hplain htab d data name ⟨data, ij, globals⟩ jd jij hj hij hgl hx
+        t text hlk ht
+  | unspec => exact Or.inr rfl
 
 /-- PARTIAL (C04, a whole registry, the converse against Spec/Eval.render itself).  Same hypotheses as
     `gen_correct_registry_partial` (`TableOk`, no print directives, `EscapeHtmlIs`): where Spec/Eval.render renders the
@@ -641,6 +698,19 @@ theorem gen_complete_file_partial (F : Bytes → List Expr → JVal → JOut) (f
     callFn F rr.1 fuel d name (.obj jd) jij = .val (.str text) ∨ callFn F rr.1 fuel d name (.obj jd) jij = .unspec :=
   gen_complete_registry_spec_partial F (regOfFile f) rr.1 fuel hesc msgs hplain (tableOk_of_file f rr hfile) globals ij name data jd hj
     jij hij hgl d text ht
+
+/-- … and with directives: the converse for a file, relative to `PrintLe` and `PrintGe` -/
+theorem gen_complete_file_dirs_partial (F : Bytes → List Expr → JVal → JOut) (fuel : Nat) (hesc : EscapeHtmlIs F)
+    (ok : List Directive → Bool) (dsem : Option Spec.Eval.LibSem) (hle : PrintLe F ok dsem) (hge : PrintGe F ok dsem) (f : SoyFile)
+    (rr : List JsFunc × Scope) (hfile : toFile f = some rr) (msgs : Bool)
+    (hplain : ∀ t ∈ regOfFile f, dirBlock ok msgs t.body = true)
+    (globals : Spec.Eval.Binds) (ij : Option Spec.Eval.Binds) (name : Bytes)
+    (data : Spec.Eval.Binds) (jd : List (Bytes × JVal)) (hj : C04c.toJsKvs data = some jd)
+    (jij : Option (List (Bytes × JVal))) (hij : IjRel ij jij) (hgl : GlobRel globals) (d : Nat) (text : Bytes)
+    (ht : Spec.Eval.render (regOfFile f) globals ij msgs name data d dsem = .val text) :
+    callFn F rr.1 fuel d name (.obj jd) jij = .val (.str text) ∨ callFn F rr.1 fuel d name (.obj jd) jij = .unspec :=
+  gen_complete_registry_spec_dirs_partial F (regOfFile f) rr.1 fuel hesc ok dsem hle hge msgs hplain (tableOk_of_file f rr hfile) globals ij
+    name data jd hj jij hij hgl d text ht
 
 end Dev
 
